@@ -10,6 +10,8 @@ import (
 	"io"
 	"math/rand/v2"
 	"net"
+	"net/http"
+	"net/http/httptest"
 	"net/netip"
 	"os"
 	"path/filepath"
@@ -425,6 +427,15 @@ func c10Run(f []string) []string {
 	case "C10.restart":
 		c10NewServer()
 		reply = []string{"1", "0", "0", "ok"}
+	case "C10.resetleases":
+		// POST /control/dhcp/reset_leases on the RUNNING server: the real handler,
+		// i.e. server.resetLeases = ResetLeases(nil) on the live v4Server + dbStore.
+		w := httptest.NewRecorder()
+		st.srv.handleResetLeases(w, httptest.NewRequest(http.MethodPost, "/control/dhcp/reset_leases", nil))
+		reply = []string{"1", "0", "0", "ok"}
+		if w.Code != http.StatusOK {
+			reply[3] = "http" + vutil.Itoa(w.Code)
+		}
 	default:
 		panic("unknown op " + f[0])
 	}
@@ -758,7 +769,17 @@ func c10Gen(r *rand.Rand, emit0 vutil.Emit) {
 					emit("C10.rmStatic", vutil.Hex(mac), c10Utoa(ip), vutil.Hex(host))
 				}
 			case w < 100+wStatic+wRestart:
-				emit("C10.restart")
+				if r.IntN(3) != 0 {
+					emit("C10.restart")
+
+					break
+				}
+				// drop all leases on the running server, then let every client ask
+				// again: the whole pool must be on offer once more
+				emit("C10.resetleases")
+				for _, m := range macs {
+					emit("C10.discover", vutil.Hex(m))
+				}
 			default:
 				emit("C10.sleep", c10Utoa(vutil.Pick(r, []uint32{1, lt - 1, lt, lt + 1, 2 * lt, lt / 2})))
 			}
